@@ -37,6 +37,8 @@ func runC04(c *Ctx) {
 	noExitRule(c, parserEntries)
 	wellFounded(c, parserEntries)
 	nilMapWriteRule(c, parserEntries)
+	// "never … return both or neither" for format detection: no (empty format, nil error)
+	detectionResult(c)
 	geometricAccumulation(c, ds)
 }
 
